@@ -74,6 +74,7 @@ class ThreadSim:
         self.rng = rng
         self.src_prefix = src_prefix
         self.policy = dict(policy or {"mode": "prob", "p": 0.02})
+        self._hold = 0
         self.opcode = granularity == "opcode"
         self.max_steps = max_steps
         self.on_switch = on_switch
@@ -146,10 +147,17 @@ class ThreadSim:
             return others[self.rng.randrange(len(others))]
         if mode == "marks":
             marked, self._marked = self._marked, None
+            if marked and self.policy.get("kinds") == "shared" and "shared-state" not in marked:
+                marked = None  # (only the marks on process-wide state count: a thread runs through its I/O undisturbed and meets the others there)
+            if marked and self._hold > 0:
+                # the thread that was just switched in keeps the processor for a time slice: its next few marks are not taken
+                self._hold -= 1
+                return None
             if self.rng.random() >= (self.policy.get("q", 0.3) if marked else self.policy.get("p", 0.0)):
                 return None
             if marked:
                 self.marks_used += 1
+                self._hold = int(self.policy.get("hold", 0))
             return others[self.rng.randrange(len(others))]
         if self.rng.random() >= self.policy.get("p", 0.02):
             return None
